@@ -86,3 +86,83 @@ Proof.
   split; [apply epoch_inv_run; repeat constructor|].
   vm_compute. repeat split; reflexivity.
 Qed.
+
+(* ---------- service layer: restart from the meta file (src/bin/mem_broker.rs main + MemBrokerService::new + JsonFileStorage) ----------
+   Proofs/BrokerSvc.v.  svc_state = (in-memory store, store in the meta file). *)
+From UM Require Import Proofs.BrokerSvc.
+
+(* the restart the code performs - a fresh store (either ordered flag) restores the loaded file - is always accepted and yields
+   exactly the file: nothing but the file survives a restart, and all of it does *)
+Theorem C13_service_restart_is_file : forall b st, svc_restart_code b st = (svc_restart st, ROk).
+Proof. exact svc_restart_code_is_restart. Qed.
+Check C13_service_restart_is_file : forall b st, svc_restart_code b st = (svc_restart st, ROk).
+Print Assumptions C13_service_restart_is_file.
+
+(* (ii) under the contract (svc_step: file := memory after every call) restarts inserted anywhere in a history change nothing:
+   file = memory at the end, and the memory is `run` of the history with the restarts removed *)
+Theorem C13_service_restarts_are_identity : forall evs st,
+  svc_file st = svc_mem st ->
+  svc_file (svc_run st evs) = svc_mem (svc_run st evs)
+  /\ svc_mem (svc_run st evs) = run (svc_mem st) (strip_restarts evs).
+Proof. exact svc_run_strip. Qed.
+Check C13_service_restarts_are_identity : forall evs st,
+  svc_file st = svc_mem st ->
+  svc_file (svc_run st evs) = svc_mem (svc_run st evs)
+  /\ svc_mem (svc_run st evs) = run (svc_mem st) (strip_restarts evs).
+Print Assumptions C13_service_restarts_are_identity.
+
+Theorem C13_service_restarts_are_identity_init : forall b evs,
+  svc_file (svc_run (svc_init b) evs) = svc_mem (svc_run (svc_init b) evs)
+  /\ svc_mem (svc_run (svc_init b) evs) = run (init_store b) (strip_restarts evs).
+Proof. exact svc_run_strip_init. Qed.
+Check C13_service_restarts_are_identity_init : forall b evs,
+  svc_file (svc_run (svc_init b) evs) = svc_mem (svc_run (svc_init b) evs)
+  /\ svc_mem (svc_run (svc_init b) evs) = run (init_store b) (strip_restarts evs).
+Print Assumptions C13_service_restarts_are_identity_init.
+
+(* the handlers as written (impl_step: handler_persists says which handler reaches trigger_update() for which reply) meet the
+   contract on every call that is persisted or leaves the store as it was *)
+Theorem C13_service_handlers_meet_contract : forall st o,
+  svc_file st = svc_mem st ->
+  (handler_persists o (snd (step (svc_mem st) o)) = false -> fst (step (svc_mem st) o) = svc_mem st) ->
+  impl_step st o = svc_step st o /\ svc_file (fst (impl_step st o)) = svc_mem (fst (impl_step st o)).
+Proof. exact impl_step_is_contract. Qed.
+Check C13_service_handlers_meet_contract : forall st o,
+  svc_file st = svc_mem st ->
+  (handler_persists o (snd (step (svc_mem st) o)) = false -> fst (step (svc_mem st) o) = svc_mem st) ->
+  impl_step st o = svc_step st o /\ svc_file (fst (impl_step st o)) = svc_mem (fst (impl_step st o)).
+Print Assumptions C13_service_handlers_meet_contract.
+
+(* ... and the premise is needed on the unchanged tree: a refused migrate_slots (SLOTS_ALREADY_EVEN) has already taken a global
+   epoch (5 -> 6), its handler skips the persistence step, and a restart takes the global epoch back to 5
+   (known class refused-migration-call-burns-global-epoch; replayed on the real server by checks/broker_common.py SERVICE_OBSERVED) *)
+Theorem C13_service_stale_witness :
+  let st := (stale_store, stale_store) in
+  let o := OMigrateSlots 1 in
+  svc_file st = svc_mem st
+  /\ snd (impl_step st o) = RErr E_SlotsAlreadyEven
+  /\ handler_persists o (snd (step (svc_mem st) o)) = false
+  /\ st_epoch (svc_mem (fst (impl_step st o))) = 6
+  /\ st_epoch (svc_file (fst (impl_step st o))) = 5
+  /\ st_epoch (svc_mem (svc_restart (fst (impl_step st o)))) = 5
+  /\ fst (impl_step st o) <> fst (svc_step st o).
+Proof. exact stale_witness. Qed.
+Check C13_service_stale_witness :
+  let st := (stale_store, stale_store) in
+  let o := OMigrateSlots 1 in
+  svc_file st = svc_mem st
+  /\ snd (impl_step st o) = RErr E_SlotsAlreadyEven
+  /\ handler_persists o (snd (step (svc_mem st) o)) = false
+  /\ st_epoch (svc_mem (fst (impl_step st o))) = 6
+  /\ st_epoch (svc_file (fst (impl_step st o))) = 5
+  /\ st_epoch (svc_mem (svc_restart (fst (impl_step st o)))) = 5
+  /\ fst (impl_step st o) <> fst (svc_step st o).
+Print Assumptions C13_service_stale_witness.
+
+(* non-vacuity of C13_service_restarts_are_identity: a history on the c13 snapshot with three restarts *)
+Example C13_service_example :
+  let evs := [EvRestart; EvOp (OCommitNth 1 0 false); EvRestart; EvOp (ORemoveProxy 6); EvRestart] in
+  svc_mem (svc_run (c13_snapshot, c13_snapshot) evs) = run c13_snapshot [OCommitNth 1 0 false; ORemoveProxy 6]
+  /\ strip_restarts evs = [OCommitNth 1 0 false; ORemoveProxy 6]
+  /\ st_epoch (svc_mem (svc_run (c13_snapshot, c13_snapshot) evs)) = 11.
+Proof. vm_compute. repeat split; reflexivity. Qed.
